@@ -1,5 +1,5 @@
 SPECIFICATION Spec
-CONSTANTS Stems <- StemsDef Roots <- RootsDef Cols <- Cols3 BaseSet <- BasesAll MaxOps = 3 NRows = 6
+CONSTANTS Stems <- StemsDef Roots <- RootsDef Cols <- Cols3 BaseSet <- BasesAll MaxOps = 3 Exts <- ExtsCsv NRows = 6
  Mut_NoDot = FALSE Mut_ReadUnfiltered = FALSE Mut_SharedSeen = FALSE Mut_BreakOnSeen = TRUE Mut_KeyWithDecoy = FALSE Mut_TempAppend = FALSE AsIs_BaseNames = FALSE
 PROPERTY RollObeysRule
 CHECK_DEADLOCK FALSE
